@@ -632,8 +632,8 @@ func marshalObstacles(m *mMsg) (missingRequired, badUTF8, hasExt bool) {
 
 type mctx struct {
 	w       *world
-	lenient bool // the real operation succeeded: "either" values count as accepted
-	ideal   bool // validate completely before changing anything (vs. the clear-then-fill order)
+	lenient bool                             // the real operation succeeded: "either" values count as accepted
+	ideal   bool                             // validate completely before changing anything (vs. the clear-then-fill order)
 	either  func(what string, accepted bool) // told about every "either" decision (statistics)
 }
 
